@@ -188,6 +188,12 @@ func fuzzCmd(args []string) int {
 	}
 	// every memory-expanding instruction with windows of 64 KiB .. 4 MiB, at a small and a large gas limit (C20: growth must be paid for)
 	progs = append(progs, gen.MemGrow()...)
+	// every single-instruction program of the operand-class matrix (C03: boundary operands 0, 31/32/33, 2^63, 2^64 +- 33, 2^256-1)
+	for _, mp := range gen.Matrix() {
+		if mp.Name == "matrix" {
+			progs = append(progs, mp)
+		}
+	}
 	files := make([]*os.File, *batches)
 	encs := make([]*json.Encoder, *batches)
 	var fnames []string
